@@ -5,17 +5,21 @@
 # with the patch.  Prints a summary line CONFIRMED / NOT-CONFIRMED.
 set -u
 D=$(readlink -f "$1"); TEST=$2; shift 2
-WT=/tmp/confirm-wt-$$
+WT=/tmp/confirm-wt-${CONFIRM_LANE:-$$}
+OC=/tmp/confirm-objcache; mkdir -p $OC
 git -C /repo worktree add -q --detach "$WT" HEAD || exit 2
 SRCS="$WT/src/babylon/concurrent/*.cpp $WT/src/babylon/*.cpp $WT/src/babylon/reusable/*.cpp $WT/src/babylon/reusable/patch/*.cpp $WT/src/babylon/logging/*.cpp $WT/src/babylon/coroutine/*.cpp $WT/src/babylon/serialization/*.cpp"
 LIBS="-labsl_time_zone -lprotobuf -labsl_base -labsl_time -labsl_strings -labsl_int128 -labsl_raw_logging_internal -labsl_throw_delegate -labsl_hash -labsl_raw_hash_set -labsl_city -labsl_low_level_hash -labsl_bad_optional_access -labsl_cord -labsl_synchronization -labsl_status -labsl_strings_internal -labsl_str_format_internal -lpthread -ldl -latomic"
-FLAGS="-std=gnu++20 -O1 -g -DNDEBUG -w -fno-access-control -I$WT/src -isystem /root/miniconda/include"
-lib() { mkdir -p $WT/_o && ( cd $WT/_o && ls $SRCS $WT/src/babylon/anyflow/*.cpp $WT/src/babylon/anyflow/builtin/*.cpp 2>/dev/null | xargs -P 16 -I{} sh -c 'g++ '"$FLAGS"' -c {} -o $(echo {} | md5sum | cut -c1-12).o' ) && ar rcs $WT/_lib.a $WT/_o/*.o; }
+FLAGS="-std=gnu++20 -O1 -g -DNDEBUG -w -fno-access-control -ffile-prefix-map=$WT=. -I$WT/src -isystem /root/miniconda/include"
+# object cache keyed on the preprocessed text (paths mapped away with -ffile-prefix-map), so the
+# unpatched build and every translation unit a patch does not reach are compiled only once
+cc1() { h=$(g++ $FLAGS -E -P "$1" 2>/dev/null | md5sum | cut -c1-16); [ -f $OC/$h.o ] || { g++ $FLAGS -c "$1" -o $OC/$h.$$.tmp && mv $OC/$h.$$.tmp $OC/$h.o; } || exit 1; cp $OC/$h.o $WT/_o/$(echo "$1" | md5sum | cut -c1-12).o; }
+export -f cc1; export FLAGS OC WT
+lib() { rm -rf $WT/_o $WT/_lib.a; mkdir -p $WT/_o && ls $SRCS $WT/src/babylon/anyflow/*.cpp $WT/src/babylon/anyflow/builtin/*.cpp 2>/dev/null | xargs -P 16 -I{} bash -c 'cc1 {}' && ar rcs $WT/_lib.a $WT/_o/*.o; }
 demo() { g++ $FLAGS $D/demo.cpp $WT/_lib.a $LIBS -o $WT/_demo 2>$WT/_demo.err && ( cd $WT && timeout 900 ./_demo >$WT/_demo.out 2>&1 ); }
 lib || { echo "NOT-CONFIRMED: base tree does not build"; git -C /repo worktree remove --force $WT; exit 1; }
 demo; R0=$?
 ( cd $WT && git apply $D/patch.diff ) || { echo "NOT-CONFIRMED: patch does not apply"; git -C /repo worktree remove --force $WT; exit 1; }
-rm -rf $WT/_o $WT/_lib.a
 lib || { echo "NOT-CONFIRMED: patched tree does not build"; git -C /repo worktree remove --force $WT; exit 1; }
 demo; R1=$?
 TAIL1=$(tail -2 $WT/_demo.out 2>/dev/null | tr '\n' ' ')
